@@ -58,7 +58,7 @@ def spec_strategy(draw, lines=False):
         rid += 1
     return {
         'tree': tree,
-        'capacity': draw(st.sampled_from([2, 4, 16])),
+        'capacity': draw(st.sampled_from([1, 2, 4, 16])),
         'reqs': reqs,
         'callers': callers,
         'streams': streams,
